@@ -81,6 +81,7 @@ impl Scenario for Pairs {
         cfg.set = if run % 2 == 0 { 2 } else { 1 };
         cfg.xt = cfg.set == 1;
         cfg.rate = 0;
+        cfg.obj = ((run / 16) % 2) as u8; // 1: the session decoder is built through Default
         let k = run / 2;
         let stratum = ((k % 3) as u8, ((k / 3) % 16) as u8);
         let style = if k % 4 == 0 { Style::Mash } else { Style::Unknown };
@@ -112,7 +113,7 @@ impl Scenario for Pairs {
         let mut last_t = 0;
         // the host's decoder for the whole session (one long-lived object), next to the
         // fresh decoder that judges each sequence on its own
-        let mut session = DynSet::new(set);
+        let mut session = if cfg.obj == 1 { DynSet::via_default(set) } else { DynSet::new(set) };
         'ops: for (i, top) in trace.ops.iter().enumerate() {
             env.cur_op = i;
             last_t = top.t.max(last_t);
